@@ -1,4 +1,5 @@
 import MjProof.Spec.SchemaWF
+import Lean.Elab.Tactic
 /-
 C41 helper lemmas: everything `_Parser.parse` returns satisfies the parse-level rules `ParseWF`.
 One lemma per parser function: "if it returns a value, the value is well-formed".
@@ -6,6 +7,22 @@ One lemma per parser function: "if it returns a value, the value is well-formed"
 namespace MjProof.Schema
 
 variable {N : Nat}
+
+open Lean Elab Tactic Meta in
+/-- Adds `x.property` for every local hypothesis `x` whose type is a subtype (the position-progress
+    facts carried by `Adv` / `AdvLe`), so that `omega` can use them. -/
+elab "subtype_props" : tactic => withMainContext do
+  let lctx ← getLCtx
+  for d in lctx do
+    if d.isImplementationDetail then continue
+    let ty ← whnfR (← instantiateMVars d.type)
+    if ty.isAppOf ``Subtype then
+      let prf ← mkAppM ``Subtype.property #[d.toExpr]
+      let t := (← instantiateMVars (← inferType prf)).headBeta
+      liftMetaTactic fun g => do
+        let g' ← g.assert (← mkFreshUserName `hp) t prf
+        let (_, g'') ← g'.intro1P
+        return [g'']
 
 /-- Case-split every `match`/`if` of a hypothesis `h : f ... = .ok _`, discarding the error branches. -/
 macro "ok_cases" h:ident : tactic =>
@@ -23,3 +40,229 @@ theorem parseArityBody_wf {c : PCtx N} {p : Nat} {ar : Arity} {q : Adv c p}
     intro k hk
     simp only [Hi.num.injEq, reduceCtorEq] at hk
   all_goals (dsimp only; omega)
+
+theorem targetType?_hasTarget {v : String} {ty : Ty} (h : targetType? v = some ty) : ty.hasTarget = true := by
+  unfold targetType? at h
+  split at h <;> first | (cases h; rfl) | contradiction
+
+theorem scalarType?_noTarget {v : String} {ty : Ty} (h : scalarType? v = some ty) : ty.hasTarget = false := by
+  unfold scalarType? at h
+  split at h <;> first | (cases h; rfl) | contradiction
+
+theorem Arity.scalar_wf : (⟨1, .num 1⟩ : Arity).WF := by
+  intro k hk; simp only [Hi.num.injEq] at hk; dsimp only; omega
+
+theorem parseType_wf {c : PCtx N} {p : Nat} {ty : Ty} {tg : Option String} {ar : Arity} {q : Adv c p}
+    (h : parseType c p = .ok ((ty, tg, ar), q)) :
+    ar.WF ∧ (ty.hasTarget = true → tg.isSome ∧ ar = ⟨1, .num 1⟩) ∧ (ty.hasTarget = false → tg = none) := by
+  unfold parseType at h
+  ok_cases h
+  all_goals
+    simp only [Except.ok.injEq, Prod.mk.injEq] at h
+    obtain ⟨⟨rfl, rfl, rfl⟩, _⟩ := h
+  all_goals first
+    | (have ht := targetType?_hasTarget ‹_›; simp [ht, Arity.scalar_wf])
+    | (have hs := scalarType?_noTarget ‹_›
+       first
+         | (have hb := parseArityBody_wf ‹_›; simp [hs, hb])
+         | simp [hs, Arity.scalar_wf])
+
+theorem FacetsWF.snoc {known : List String} {acc : Facets} {k : String} (v : FacetVal)
+    (hacc : FacetsWF known acc) (hk : ¬¬ k ∈ known) (hd : ¬ k ∈ acc.map (·.1)) :
+    FacetsWF known (acc ++ [(k, v)]) := by
+  refine ⟨?_, ?_⟩
+  · intro e he
+    rcases List.mem_append.mp he with he | he
+    · exact hacc.1 e he
+    · rw [List.mem_singleton.mp he]; exact Decidable.not_not.mp hk
+  · rw [List.map_append, List.nodup_append]
+    refine ⟨hacc.2, by simp, ?_⟩
+    intro a ha b hb
+    simp only [List.map_cons, List.map_nil, List.mem_singleton] at hb
+    rw [hb]; rintro rfl; exact hd ha
+
+theorem FacetsWF.nil {known : List String} : FacetsWF known [] := ⟨by simp, by simp⟩
+
+theorem parseFacets_wf {c : PCtx N} {known : List String} {p : Nat} {acc fs : Facets} {q : Adv c p}
+    (h : parseFacets c known p acc = .ok (fs, q)) (hacc : FacetsWF known acc) : FacetsWF known fs := by
+  unfold parseFacets at h
+  ok_cases h
+  all_goals
+    simp only [Except.ok.injEq, Prod.mk.injEq] at h
+    obtain ⟨rfl, _⟩ := h
+    have hstep := fun v => FacetsWF.snoc v hacc (by assumption) (by assumption)
+  · exact hstep _
+  · exact parseFacets_wf ‹_› (hstep _)
+termination_by c.toks.size - p
+decreasing_by all_goals (subtype_props; omega)
+
+theorem parseOptFacets_wf {c : PCtx N} {known : List String} {p : Nat} {fs : Facets} {q : AdvLe c p}
+    (h : parseOptFacets c known p = .ok (fs, q)) : FacetsWF known fs := by
+  unfold parseOptFacets at h
+  ok_cases h
+  all_goals
+    simp only [Except.ok.injEq, Prod.mk.injEq] at h
+    obtain ⟨rfl, _⟩ := h
+  · exact FacetsWF.nil
+  · exact parseFacets_wf ‹_› FacetsWF.nil
+
+theorem parseAttr_wf {c : PCtx N} {t : Token N} {p : Nat} {a : Attr N} {q : Adv c p}
+    (h : parseAttr c t p = .ok (a, q)) : AttrParseWF a := by
+  unfold parseAttr at h
+  ok_cases h
+  simp only [Except.ok.injEq, Prod.mk.injEq] at h
+  obtain ⟨rfl, _⟩ := h
+  have ht := parseType_wf ‹_›
+  have hf := parseOptFacets_wf ‹_›
+  exact ⟨ht.1, hf, ht.2.1, ht.2.2⟩
+
+theorem parseBundleLoop_ne {c : PCtx N} {p : Nat} {acc b : List String} {q : AdvLe c p}
+    (h : parseBundleLoop c p acc = .ok (b, q)) (hacc : acc ≠ []) : b ≠ [] := by
+  unfold parseBundleLoop at h
+  ok_cases h
+  all_goals
+    simp only [Except.ok.injEq, Prod.mk.injEq] at h
+    obtain ⟨rfl, _⟩ := h
+  · simpa using hacc
+  · exact parseBundleLoop_ne ‹_› (by simp)
+termination_by c.toks.size - p
+decreasing_by all_goals (subtype_props; omega)
+
+theorem parseBundles_wf {c : PCtx N} {line : Line N} {p : Nat} {acc bs : List (List String)} {q : AdvLe c p}
+    (h : parseBundles c line p acc = .ok (bs, q)) (hacc : ∀ b ∈ acc, b ≠ []) : ∀ b ∈ bs, b ≠ [] := by
+  unfold parseBundles at h
+  ok_cases h
+  all_goals
+    simp only [Except.ok.injEq, Prod.mk.injEq] at h
+    obtain ⟨rfl, _⟩ := h
+  · simpa using hacc
+  · refine parseBundles_wf ‹_› ?_
+    intro b hb
+    rcases List.mem_cons.mp hb with rfl | hb
+    · exact parseBundleLoop_ne ‹_› (by simp)
+    · exact hacc b hb
+  · simpa using hacc
+termination_by c.toks.size - p
+decreasing_by all_goals (subtype_props; omega)
+
+theorem parseMember_wf {c : PCtx N} {allow : Bool} {p : Nat} {m : Member N} {q : Adv c p}
+    (h : parseMember c allow p = .ok (m, q)) : MemberParseWF allow m := by
+  unfold parseMember at h
+  ok_cases h
+  all_goals
+    simp only [Except.ok.injEq, Prod.mk.injEq] at h
+    obtain ⟨rfl, _⟩ := h
+  · trivial
+  · refine ⟨by dsimp only; omega, parseBundles_wf ‹_› (by simp)⟩
+  · show allow = true
+    simpa using ‹¬ ¬ allow = true›
+  · show allow = true
+    simpa using ‹¬ ¬ allow = true›
+  · exact parseAttr_wf ‹_›
+
+theorem parseMembers_wf {c : PCtx N} {allow : Bool} {p : Nat} {acc ms : List (Member N)} {q : Adv c p}
+    (h : parseMembers c allow p acc = .ok (ms, q)) (hacc : ∀ m ∈ acc, MemberParseWF allow m) :
+    ∀ m ∈ ms, MemberParseWF allow m := by
+  unfold parseMembers at h
+  ok_cases h
+  all_goals
+    simp only [Except.ok.injEq, Prod.mk.injEq] at h
+    obtain ⟨rfl, _⟩ := h
+  · simpa using hacc
+  · refine parseMembers_wf ‹_› ?_
+    intro m hm
+    rcases List.mem_cons.mp hm with rfl | hm
+    · exact parseMember_wf ‹_›
+    · exact hacc m hm
+termination_by c.toks.size - p
+decreasing_by all_goals (subtype_props; omega)
+
+theorem parseEnumItems_wf {c : PCtx N} {p : Nat} {acc items : List (String × String)} {q : Adv c p}
+    (h : parseEnumItems c p acc = .ok (items, q)) (hacc : (acc.map (·.1)).Nodup) :
+    (items.map (·.1)).Nodup := by
+  unfold parseEnumItems at h
+  ok_cases h
+  all_goals
+    simp only [Except.ok.injEq, Prod.mk.injEq] at h
+    obtain ⟨rfl, _⟩ := h
+  · rw [List.map_reverse]; exact (List.reverse_perm _).nodup_iff.mpr hacc
+  · refine parseEnumItems_wf ‹_› ?_
+    simp only [List.map_cons, List.nodup_cons]
+    exact ⟨by assumption, hacc⟩
+termination_by c.toks.size - p
+decreasing_by all_goals (subtype_props; omega)
+
+theorem parseEnum_wf {c : PCtx N} {line : Line N} {p : Nat} {e : Enum N} {q : Adv c p}
+    (h : parseEnum c line p = .ok (e, q)) : EnumParseWF e := by
+  unfold parseEnum at h
+  ok_cases h
+  simp only [Except.ok.injEq, Prod.mk.injEq] at h
+  obtain ⟨rfl, _⟩ := h
+  exact ⟨by assumption, parseEnumItems_wf ‹_› (by simp)⟩
+
+theorem parseGroup_wf {c : PCtx N} {line : Line N} {p : Nat} {g : Group N} {q : Adv c p}
+    (h : parseGroup c line p = .ok (g, q)) : GroupParseWF g := by
+  unfold parseGroup at h
+  ok_cases h
+  simp only [Except.ok.injEq, Prod.mk.injEq] at h
+  obtain ⟨rfl, _⟩ := h
+  exact ⟨by assumption, parseMembers_wf ‹_› (by simp)⟩
+
+theorem parseElement_wf {c : PCtx N} {line : Line N} {p : Nat} {e : Element N} {q : Adv c p}
+    (h : parseElement c line p = .ok (e, q)) : ElementParseWF e := by
+  unfold parseElement at h
+  ok_cases h
+  simp only [Except.ok.injEq, Prod.mk.injEq] at h
+  obtain ⟨rfl, _⟩ := h
+  exact ⟨parseOptFacets_wf ‹_›, parseMembers_wf ‹_› (by simp)⟩
+
+/-- Invariant of the declaration loop (the accumulators are in reverse declaration order). -/
+structure DeclsInv (es : List (Enum N)) (gs : List (Group N)) (ls : List (Element N)) : Prop where
+  eu : (es.map (·.name)).Nodup
+  gu : (gs.map (·.name)).Nodup
+  lu : (ls.map (·.name)).Nodup
+  ew : ∀ e ∈ es, EnumParseWF e
+  gw : ∀ g ∈ gs, GroupParseWF g
+  lw : ∀ e ∈ ls, ElementParseWF e
+
+theorem nodup_map_reverse {α β : Type} (f : α → β) (l : List α) (h : (l.map f).Nodup) :
+    (l.reverse.map f).Nodup := by
+  rw [List.map_reverse]; exact (List.reverse_perm _).nodup_iff.mpr h
+
+theorem parseDecls_wf {c : PCtx N} {p : Nat} {es : List (Enum N)} {gs : List (Group N)} {ls : List (Element N)}
+    {s : Schema N} (h : parseDecls c p es gs ls = .ok s) (inv : DeclsInv es gs ls) : ParseWF s := by
+  unfold parseDecls at h
+  ok_cases h
+  · simp only [Except.ok.injEq] at h
+    subst h
+    exact ⟨nodup_map_reverse _ _ inv.eu, nodup_map_reverse _ _ inv.gu, nodup_map_reverse _ _ inv.lu,
+      fun e he => inv.ew e (List.mem_reverse.mp he), fun e he => inv.gw e (List.mem_reverse.mp he),
+      fun e he => inv.lw e (List.mem_reverse.mp he)⟩
+  · refine parseDecls_wf h ⟨?_, inv.gu, inv.lu, ?_, inv.gw, inv.lw⟩
+    · simp only [List.map_cons, List.nodup_cons]; exact ⟨by assumption, inv.eu⟩
+    · intro e he
+      rcases List.mem_cons.mp he with rfl | he
+      · exact parseEnum_wf ‹_›
+      · exact inv.ew e he
+  · refine parseDecls_wf h ⟨inv.eu, ?_, inv.lu, inv.ew, ?_, inv.lw⟩
+    · simp only [List.map_cons, List.nodup_cons]; exact ⟨by assumption, inv.gu⟩
+    · intro e he
+      rcases List.mem_cons.mp he with rfl | he
+      · exact parseGroup_wf ‹_›
+      · exact inv.gw e he
+  · refine parseDecls_wf h ⟨inv.eu, inv.gu, ?_, inv.ew, inv.gw, ?_⟩
+    · simp only [List.map_cons, List.nodup_cons]; exact ⟨by assumption, inv.lu⟩
+    · intro e he
+      rcases List.mem_cons.mp he with rfl | he
+      · exact parseElement_wf ‹_›
+      · exact inv.lw e he
+termination_by c.toks.size - p
+decreasing_by all_goals (subtype_props; omega)
+
+/-- Everything the parser returns satisfies the parse-level rules. -/
+theorem parseText_wf {text : List Char} {s : Schema (nlines text)} (h : parseText text = .ok s) : ParseWF s := by
+  unfold parseText at h
+  ok_cases h
+  exact parseDecls_wf h ⟨by simp, by simp, by simp, by simp, by simp, by simp⟩
+
+end MjProof.Schema
